@@ -278,6 +278,11 @@ def oracle(case):
             return out
         # 3. dependency links through the API
         view = ref.view(None)
+        listed = sorted(observe.lexspec(lx) for lx in wn.lexicons())
+        if listed != sorted(ref.installed()):
+            # the tables are right (step 1) but the API lists something else
+            out.append(Disc('installed-set:api', label, sorted(ref.installed()), listed))
+            return out
         for lx in wn.lexicons():
             got = observe.lexicon_obs(lx)
             exp = view.lexicon_obs(ref.get(observe.lexspec(lx)))
